@@ -516,7 +516,7 @@ func checkEvaluator(pl *pool, rt *ssa.Function) {
 			if delta < 0 {
 				atom = "old==" + sname
 			}
-			eq, wit := bcs.Equiv(bcs.OnlyNamed(bcs.Reach(st)), bcs.Atom(atom))
+			eq, wit := bcs.EquivStrict(bcs.Reach(st), bcs.Atom(atom))
 			pc := perCounter[a.Field]
 			if delta < 0 {
 				pc[0]++
